@@ -448,6 +448,68 @@ def run_client_responses(ctx):
                 ctx.violation("C15:client:code-response:no-token-request", "fetch_token accepted a code response without sending a token request", case)
 
 
+def run_assertion_clients(ctx):
+    """RFC 7521 / 7523 assertion clients (requests AssertionSession, httpx AssertionClient and AsyncAssertionClient): the token
+    request they emit is read back by the server half -- grant type, the assertion (verified with the client's key: issuer,
+    subject, audience, extra claims) and the scope, character for character."""
+    from authlib.integrations.httpx_client import AssertionClient as HxAssertion, AsyncAssertionClient as HxAsyncAssertion
+    from authlib.integrations.requests_client import AssertionSession
+    from authlib.jose import jwt as _jwt
+    key = "assertion-secret-0123456789abcdef"
+    scopes = [None, "a", "a b", "a  b", " a", "a ", "a\tb", "a\u00a0b", "caf\u00e9 x", "b a", "a b a"]
+    for scope in scopes:
+        for subject, claims in (("user-1", None), ("us er@\u00e9", {"tenant": "t 1", "n": 5})):
+            caps = {}
+            kw = dict(token_endpoint=TOKEN_URL, issuer="client-1", subject=subject, audience="https://as.example", claims=claims, scope=scope,
+                      key=key, alg="HS256", header={"alg": "HS256", "kid": "k1"})
+            try:
+                cap = Capture()
+                sess = AssertionSession(**kw)
+
+                def fake_send(r, cap=cap, **kwargs):
+                    cap.record(r.method, r.url, r.headers, r.body)
+                    resp = requests.Response()
+                    resp.status_code = 200
+                    resp._content = json.dumps(TOKEN_JSON).encode()
+                    resp.headers["Content-Type"] = "application/json"
+                    return resp
+                sess.send = fake_send
+                sess.refresh_token()
+                caps["requests"] = cap.reqs
+                cap = Capture()
+                HxAssertion(transport=httpx.MockTransport(httpx_handler(cap)), **kw).refresh_token()
+                caps["httpx"] = cap.reqs
+                cap = Capture()
+
+                async def go(cap=cap):
+                    async with HxAsyncAssertion(transport=httpx.MockTransport(httpx_handler(cap)), **kw) as c:
+                        await c.refresh_token()       # (the base's refresh_token returns the coroutine of the async _refresh_token)
+                asyncio.run(go())
+                caps["async_httpx"] = cap.reqs
+            except Exception as e:  # noqa: BLE001
+                ctx.violation("C15:assertion-client:raises:%s" % type(e).__name__, "an assertion client raised while building its token request: %s" % str(e)[:100],
+                              {"scope": scope, "subject": subject})
+                continue
+            for kind, reqs in caps.items():
+                case = {"assertion_client": kind, "scope": scope, "subject": subject, "claims": claims}
+                ctx.case(case, ("assertion", kind, scope, subject), "assertion-client:%s" % kind)
+                if len(reqs) != 1:
+                    ctx.violation("C15:assertion-client:request-count:%s" % kind, "expected one token request", dict(case, n=len(reqs)))
+                    continue
+                rd = server_read(reqs[0], {})
+                form = rd["form"]
+                try:
+                    cl = dict(_jwt.decode(form.get("assertion", ""), key))
+                except Exception as e:  # noqa: BLE001
+                    cl = {"undecodable": type(e).__name__}
+                want_claims = dict(claims or {}, iss="client-1", sub=subject, aud="https://as.example")
+                ok = (reqs[0]["method"] == "POST" and form.get("grant_type") == "urn:ietf:params:oauth:grant-type:jwt-bearer" and form.get("scope") == scope
+                      and all(cl.get(k) == v for k, v in want_claims.items()) and isinstance(cl.get("exp"), int) and isinstance(cl.get("iat"), int))
+                if not ok:
+                    ctx.violation("C15:assertion-client:read-back-differs:%s" % kind, "the assertion client's token request is not read back unchanged by the server half "
+                                  "(grant type, assertion claims or scope differ)", dict(case, form={k: v for k, v in form.items() if k != "assertion"}, claims_read=cl))
+
+
 def run(ctx):
     ctx.rule = ("codecs: generated parameter lists over text with spaces, + & = # ? ; / quotes, non-ASCII and % x existing "
                 "query/fragment text x URL shapes, plus hostile url_decode input; clients: generated scenarios (authorize, "
@@ -459,6 +521,7 @@ def run(ctx):
     run_clients(ctx)
     run_responses(ctx)
     run_client_responses(ctx)
+    run_assertion_clients(ctx)
 
 
 def run_case(ctx, case):
